@@ -668,3 +668,19 @@ Proof.
   - pose proof (tset_shallow_outside _ _ _ _ Hset q E) as Hs. rewrite Hq in Hs. simpl in Hs.
     symmetry in Hs. now apply shallow_link.
 Qed.
+
+Theorem expand_no_new_links t R name fs t' e q tg :
+  Forall good_comp R -> nolinks t R -> (exists es, tget t R = Some (TDir es)) ->
+  expand_model t R name fs = (t', e) -> tget t' q = Some (TLink tg) -> tget t q = Some (TLink tg).
+Proof.
+  intros Hg Hn Hd H. pose proof (expand_model_step R t name fs Hg Hn Hd) as Hs. rewrite H in Hs.
+  eapply step_no_new_links; eauto.
+Qed.
+
+Theorem extract_no_new_links t R s t' e q tg :
+  Forall good_comp R -> nolinks t R -> (exists es, tget t R = Some (TDir es)) ->
+  extract_model t R s = (t', e) -> tget t' q = Some (TLink tg) -> tget t q = Some (TLink tg).
+Proof.
+  intros Hg Hn Hd H. pose proof (extract_model_step R t s Hg Hn Hd) as Hs. rewrite H in Hs.
+  eapply step_no_new_links; eauto.
+Qed.
